@@ -514,7 +514,7 @@ def run(seed: int, scale: float, driver: str) -> dict:
                 bump("clients: " + f)
             if feats:
                 nontrivial.add(("c", strat, direct, json.dumps(mpaths, sort_keys=True)))
-                if len(samples) < 6 and "two operations, one method name" in feats:
+                if len(samples) < 6 and "suffix added" in feats:
                     samples.append({"fn": "clients", "request": req, "model": m_clients, "impl": impl_clients})
 
     return {"comparisons": comparisons, "disagreements": disagreements, "nontrivial": len(nontrivial),
